@@ -63,6 +63,12 @@ claim("C04",
       STATIC_NOTE + "tables/blame_guards.json. Two known findings (abort1/abort2 index swap) are listed in known_findings.jsonl and printed as KNOWN-FINDING.",
       "DESIGN.md §4 C04")
 
+claim("C07",
+      "dominance / presence rules on the handler's queueing mechanism (store before the round test, queue replay and re-examination in finalize, duplicate filter, non-overwriting store, stale-round guard, broadcast-before-p2p gating and draining), map-iteration scan for every hash/transcript write of the library, round-number/window rules",
+      "Decides only the shape facts every delivery schedule relies on: early messages are queued and replayed, duplicates and stale messages cannot replace processed ones, a p2p message cannot overtake its sender's broadcast, no transcript depends on Go map iteration order, and every content is queued under a round inside the window. Equality of outcomes over ALL interleavings is a model-checking question and is explicitly not decided; this is the honest static remainder of a schedules-quantified property.",
+      STATIC_NOTE + "Handler runs under one mutex (C17); rounds are deterministic functions of stored messages and local randomness. Not decided: outcome equality across interleavings.",
+      "DESIGN.md §4 C07")
+
 for p, why in {
     "C01": "not built yet", "C02": "not built yet", "C03": "not built yet", "C04": "not built yet", "C05": "not built yet",
     "C06": "not built yet", "C07": "not built yet", "C08": "not built yet", "C09": "not built yet", "C10": "not built yet",
